@@ -15,7 +15,7 @@ From Coq Require Import String.
 From Coq Require Import List Arith Bool Lia ZArith NArith.
 Import ListNotations.
 From YP Require Import Base.Str Term.Term Term.Fast Term.Dfast Unify.Unify Unify.Fast Unify.UnifyGen Unify.UnifyGenFast Comp.IR Comp.CompileBody
-  Sem.IRSem Sem.Machine Engine.GenMachine Engine.Restore Engine.IRMachine.
+  Sem.IRSem Sem.Machine Engine.GenMachine Engine.Restore Engine.MachineMono Engine.IRMachine.
 Local Open Scope string_scope.
 Local Open Scope list_scope.
 
@@ -707,35 +707,65 @@ Section Refine.
 
   Notation mnexts := (m_nexts ir nofacts nouser).
 
-  Lemma FSpec_nexts D g0 xs rf : rf <> RYield -> forall h it,
+  Lemma FSpec_nexts D g0 xs rf : rf <> RYield -> forall k h it,
     FSpec D g0 xs rf (fun n => minext n D h it) ->
-    exists N hf itf, forall n k, N <= n -> length xs < k -> mnexts n D k h it = Some (hf, itf, map sto xs, rf).
+    exists N hf itf, forall n, N <= n ->
+      mnexts n D k h it = Some (hf, itf, map sto (firstn k xs), if Nat.leb k (length xs) then RYield else rf).
   Proof.
-    intros NY. induction xs as [|x r IH]; intros h it H; cbn [FSpec] in H.
-    - destruct H as [N [hf [it' H]]]. exists N, hf, it'. intros n k L Lk. destruct k as [|k]; [cbn in Lk; lia|].
-      unfold m_nexts. cbn [nexts]. rewrite (H n L). destruct rf; try reflexivity. congruence.
-    - destruct H as [N [it' [H [_ [_ R]]]]]. destruct (IH _ _ R) as [N' [hf [itf HN]]].
-      exists (N + N'), hf, itf. intros n k L Lk. destruct k as [|k]; [cbn in Lk; lia|].
-      unfold m_nexts. cbn [nexts]. rewrite (H n) by lia. unfold m_nexts in HN. rewrite (HN n k) by (cbn in Lk; lia).
-      reflexivity.
+    intros NY. induction xs as [|x r IH]; intros k h it H; cbn [FSpec] in H.
+    - destruct k as [|k].
+      + exists 0, h, it. intros n _. reflexivity.
+      + destruct H as [N [hf [it' H]]]. exists N, hf, it'. intros n Ln.
+        unfold m_nexts. cbn [nexts]. rewrite (H n Ln). destruct rf; try reflexivity. congruence.
+    - destruct k as [|k].
+      + exists 0, h, it. intros n _. reflexivity.
+      + destruct H as [N [it' [H [_ [_ R]]]]]. destruct (IH k _ _ R) as [N' [hf [itf HN]]].
+        exists (N + N'), hf, itf. intros n Ln.
+        unfold m_nexts. cbn [nexts]. rewrite (H n) by lia. unfold m_nexts in HN. rewrite (HN n) by lia.
+        reflexivity.
   Qed.
 
-  (* THE REFINEMENT THEOREM: the generator object of a query, resumed (each time under the heap it
-     left) until it ends, yields exactly the answer stores of the big-step semantics, in order,
-     and ends the same way; the heap is then the initial one. *)
-  Theorem machine_refines_irsem d name args nx h : wf h ->
-    exists N itf, forall n k, N <= n -> length (fst (query d ir name args (mkst h nx))) < k ->
+  (* THE REFINEMENT THEOREM.  xs / err = the answer states and the error flag of the big-step
+     semantics.  The generator object of the query, resumed (each time under the heap it left) at
+     most k times - ANY abandonment point k - yields exactly the first k answer stores, in order;
+     if k exceeds the number of answers, the (#answers+1)-th __next__ ends by StopIteration or by
+     an exception exactly as the big-step semantics says, and the heap is then the initial one. *)
+  Theorem machine_refines_irsem d name args nx h k : wf h ->
+    exists N hf itf, forall n, N <= n ->
       mnexts n d k h (m_query ir nofacts nouser name args nx) =
-      Some (h, itf, map sto (fst (query d ir name args (mkst h nx))), rend (snd (query d ir name args (mkst h nx)))).
+      Some (hf, itf, map sto (firstn k (fst (query d ir name args (mkst h nx)))),
+            if Nat.leb k (length (fst (query d ir name args (mkst h nx)))) then RYield
+            else rend (snd (query d ir name args (mkst h nx))))
+      /\ (length (fst (query d ir name args (mkst h nx))) < k -> hf = h).
   Proof.
     intros W. destruct (call_ok d 0 name args nx h W) as [HF _].
     assert (NY: rend (snd (query d ir name args (mkst h nx))) <> RYield) by (destruct (snd _); discriminate).
-    destruct (FSpec_nexts d 0 _ _ NY _ _ HF) as [N [hf [itf H]]].
-    exists N, itf. intros n k L Lk. rewrite (H n k L Lk). f_equal. f_equal. f_equal. f_equal.
-    pose proof (H n k L Lk) as Hn. destruct d as [|d].
-    - destruct k as [|k]; [lia|]. unfold m_nexts in Hn. cbn [nexts] in Hn.
+    destruct (FSpec_nexts d 0 _ _ NY k _ _ HF) as [N [hf [itf H]]].
+    exists N, hf, itf. intros n Ln. split; [exact (H n Ln)|]. intros Lk.
+    pose proof (H n Ln) as Hn. apply Nat.leb_gt in Lk. rewrite Lk in Hn. destruct d as [|d].
+    - destruct k as [|k]; [apply Nat.leb_gt in Lk; lia|]. unfold m_nexts in Hn. cbn [nexts] in Hn.
       destruct n as [|n]; [cbn in Hn; discriminate|]. unfold m_query in Hn. rewrite inext_S in Hn. inversion Hn; reflexivity.
     - destruct (compiled_query_restores ir nofacts nouser _ _ _ _ _ _ _ Hn) as [_ [_ [A _]]]. apply A; [exact NY|discriminate].
+  Qed.
+
+  Lemma lnext_mono_S n h l r : lnext n h l = Some r -> lnext (S n) h l = Some r.
+  Proof.
+    destruct l as [g|]; cbn [lnext]; auto. rewrite !next_x_eq.
+    destruct (next n h g) as [[[h' g'] y]|] eqn:N; [|discriminate]. rewrite (next_mono_S _ _ _ N). auto.
+  Qed.
+
+  (* ... and for WHATEVER fuel the machine returns a value at *)
+  Theorem machine_refines_irsem_fuel d name args nx h k n hf itf ys r : wf h ->
+    mnexts n d k h (m_query ir nofacts nouser name args nx) = Some (hf, itf, ys, r) ->
+    ys = map sto (firstn k (fst (query d ir name args (mkst h nx)))) /\
+    r = (if Nat.leb k (length (fst (query d ir name args (mkst h nx)))) then RYield
+         else rend (snd (query d ir name args (mkst h nx)))).
+  Proof.
+    intros W H. destruct (machine_refines_irsem d name args nx h k W) as [N [hf' [itf' HN]]].
+    destruct (HN (n + N)) as [A _]; [lia|].
+    unfold m_nexts in *.
+    rewrite (nexts_mono _ _ _ _ mkleaf lnext lclose prog f_nxt lnext_mono_S n (n + N) d k h _ _ H) in A by lia.
+    inversion A; subst. auto.
   Qed.
 
   (* the same with the cell counters: the i-th suspension of the generator object carries the
